@@ -75,6 +75,13 @@ pub fn braille_mathml(mathml: Element, nav_node_id: &str) -> Result<(String, usi
         };
 
         let end = end.unwrap();         // always exists if start exists
+        if braille.chars().any(|ch| ch.len_utf8() != 3) {
+            // not only Unicode braille chars (e.g., a code without cleanup function) -- the byte arithmetic used to extend the highlight to
+            //   the indicators isn't valid, so just report where the highlight is
+            let start = braille[..start.unwrap()].chars().count();
+            let end = braille[..end].chars().count();
+            return (braille, start, end);
+        }
         let start = highlight_first_indicator(&mut braille, braille_code, start.unwrap(), end);
 
         if start == end {
